@@ -123,6 +123,36 @@ example : patFindOK (cmT C02.exT) C02.exPs [97, 98] (some (1, 2)) = false := by 
 example : patFindOK (cmT C02.exT) C02.exPs [97, 98] (some (1, 1)) = false := by decide
 example : exM.dfa.prio = C02.exPs.map (·.1) := by decide
 
+/-! ## Token types shared by several patterns of a mode (finding F2)
+
+`scan_step` assumes pairwise distinct token types. Without that assumption the crate (and its model)
+follows `sharedTypeRule`: ties among the longest matches go to the token type whose *first
+occurrence* in the pattern list comes first. The two rules coincide for distinct token types, so the
+classification of a failure as "finding F2" in the driver can hide nothing there; the example shows
+a configuration on which they differ (the deviation recorded in `known_findings.txt`). -/
+
+/-- The crate's rule for all pattern lists, token types shared or not (no `Nodup`). -/
+theorem shared_types_follow_first_occurrence (M : ModeDfa) (cm cmR : Nat → Nat → Bool)
+    (ps : List (Nat × Re)) (hlas : M.las = []) (hprio : M.dfa.prio = ps.map (·.1))
+    (heq : LangEquiv M.dfa cm cmR ps) (w : List Nat) :
+    sharedTypeRule cmR ps w (findFrom M cm 0 w) = true :=
+  findFrom_sharedTypeRule M cm cmR ps hlas hprio heq w
+
+/-- For distinct token types the crate's rule is the property's rule. -/
+theorem shared_type_rule_is_property_rule (cm : Nat → Nat → Bool) (ps : List (Nat × Re))
+    (hn : (ps.map (·.1)).Nodup) (w : List Nat) (r : Option (Nat × Nat)) :
+    sharedTypeRule cm ps w r = patFindOK cm ps w r :=
+  sharedTypeRule_eq_patFindOK cm ps hn w r
+
+/-- patterns `b` (type 1), `a` (type 2), `a` (type 1) on the input `a`: the property prescribes
+    type 2 (the first listed pattern that matches), the crate's rule gives type 1 -/
+def exShared : List (Nat × Re) := [(1, .cls 1), (2, .cls 0), (1, .cls 0)]
+example : patFindOK (cmT C02.exT) exShared [97] (some (2, 1)) = true := by decide
+example : patFindOK (cmT C02.exT) exShared [97] (some (1, 1)) = false := by decide
+example : sharedTypeRule (cmT C02.exT) exShared [97] (some (1, 1)) = true := by decide
+example : sharedTypeRule (cmT C02.exT) exShared [97] (some (2, 1)) = false := by decide
+example : distinctTypes exShared = false := by decide
+
 /-! ## End to end on the model of the whole crate (track A)
 
 With the compiler model proved correct for every pattern list (`C02.compiler_model_correct`) the
